@@ -380,8 +380,7 @@ class Env:
         t = ops.int_term(v)
         ok = z3.Or(*[t == z3.IntVal(m) for m in sorted(set(members))])
         if not it.ctx.pure:
-            if not it.ctx.branch(ok):
-                it.raise_exc(ValueError, f"not a valid {cls.__name__}")
+            it.require(ok, ValueError, f"not a valid {cls.__name__}")
         return SEnum(cls, t)
 
     def dataclass_init(self, it, obj, cls, args, kwargs):
@@ -460,8 +459,7 @@ class Env:
     def sym_unpack(self, it, v, n, starred):
         if isinstance(v, (SBytes, SStr, SSeq)) and not starred:
             ln = z3.Length(v.term)
-            if not it.ctx.branch(ln == n):
-                it.raise_exc(ValueError, f"unpack expected {n}")
+            it.require(ln == n, ValueError, f"unpack expected {n}")
             return [ops.index(it, v, i) for i in range(n)]
         raise Unsupported(f"unpack of {type(v).__name__}")
 
@@ -498,11 +496,9 @@ class Env:
             set_term(obj, z3.Concat(z3.Extract(obj.term, z3.IntVal(0), a), ops.bytes_term(v), z3.Extract(obj.term, bb, n - bb)))
             return
         i, ok = ops._norm_index(it, idx, n)
-        if not it.ctx.branch(ok):
-            it.raise_exc(IndexError, "bytearray index out of range")
+        it.require(ok, IndexError, "bytearray index out of range")
         vt = ops.int_term(v)
-        if not it.ctx.branch(z3.And(vt >= 0, vt <= 255)):
-            it.raise_exc(ValueError, "byte must be in range(0, 256)")
+        it.require(z3.And(vt >= 0, vt <= 255), ValueError, "byte must be in range(0, 256)")
         set_term(obj, z3.Concat(z3.Extract(obj.term, z3.IntVal(0), i), z3.Unit(vt), z3.Extract(obj.term, i + 1, n - i - 1)))
 
     def sseq_store(self, it, obj, idx, v, is_slice):
@@ -510,8 +506,7 @@ class Env:
             raise Unsupported("slice store into symbolic list")
         n = z3.Length(obj.term)
         i, ok = ops._norm_index(it, idx, n)
-        if not it.ctx.branch(ok):
-            it.raise_exc(IndexError, "list assignment index out of range")
+        it.require(ok, IndexError, "list assignment index out of range")
         set_term(obj, z3.Concat(z3.Extract(obj.term, z3.IntVal(0), i), z3.Unit(obj.elem.box(v)), z3.Extract(obj.term, i + 1, n - i - 1)))
 
     # ----------------------------------------------------------------- symbolic methods
@@ -729,7 +724,7 @@ class Env:
         if is_for:
             seqv = self.for_sequence(it, iterable)
             frame.locals["__seq%d" % ordinal] = seqv
-            ctx.ghost[idx_name] = 0
+            ctx.ghost[idx_name] = seqv.g_init()
 
         def ns_now():
             ns = dict(frame.locals)
@@ -804,8 +799,8 @@ class Env:
             y.term = ctx.fresh("h_yielded", y.term.sort())
         if is_for:
             i = ctx.fresh("h_" + idx_name, z3.IntSort())
-            ctx.assume(i >= 0)
-            ctx.assume(i <= seqv.len_term())
+            for c in seqv.g_constraints(i):
+                ctx.assume(c)
             ctx.ghost[idx_name] = ops.mk_int(i)
         # 3. assume invariant
         for f in inv.inv:
@@ -820,9 +815,9 @@ class Env:
         # 4. one arbitrary iteration, or exit
         if is_for:
             iv = ctx.ghost[idx_name]
-            cont = ctx.branch(ops.int_term(iv) < seqv.len_term())
+            cont = ctx.branch(seqv.g_has_next(ops.int_term(iv)))
             if cont:
-                item = seqv.item(it, iv)
+                item = seqv.g_item(it, iv)
                 it.assign(node.target, item, frame)
         else:
             cont = it.truth(it.eval(node.test, frame))
@@ -837,7 +832,7 @@ class Env:
             pass
         # back edge
         if is_for:
-            ctx.ghost[idx_name] = ops.mk_int(ops.int_term(ctx.ghost[idx_name]) + 1)
+            ctx.ghost[idx_name] = ops.mk_int(seqv.g_advance(ops.int_term(ctx.ghost[idx_name])))
         # havoc completeness: nothing outside the havoc set may have changed
         for k, v in frame.locals.items():
             if k in names or k.startswith("__seq"):
@@ -891,20 +886,31 @@ class Env:
             return SeqView(snapshot(iterable))
         if isinstance(iterable, (bytes, bytearray)):
             return SeqView(SBytes(ops.bytes_term(iterable), False))
-        if isinstance(iterable, StubObj) and hasattr(iterable, "len_term"):
+        if isinstance(iterable, StubObj) and hasattr(iterable, "g_init"):
             return iterable
         raise Unsupported(f"for-loop with invariant over {type(iterable).__name__}")
 
 
 class SeqView(StubObj):
+    """iteration protocol of a for-loop with invariant over a sequence: ghost = index"""
+
     def __init__(self, v):
         self.v = v
 
-    def len_term(self):
-        return z3.Length(self.v.term)
+    def g_init(self):
+        return 0
 
-    def item(self, it, idx):
-        return ops.index(it, self.v, idx)
+    def g_constraints(self, g):
+        return [g >= 0, g <= z3.Length(self.v.term)]
+
+    def g_has_next(self, g):
+        return g < z3.Length(self.v.term)
+
+    def g_item(self, it, g):
+        return ops.index(it, self.v, g)
+
+    def g_advance(self, g):
+        return g + 1
 
 
 class _DictObj(StubObj):
